@@ -88,8 +88,14 @@ MAX_STATES = 150_000
 class Seam18(Seam):
     """seam.py's randint wrapper reads kw['high'] whenever `size` is passed by keyword, so the spellings
     torch.randint(low, high, size=...) (MTSP, MDCPDP, FJSP, JSSP generators) and torch.randint(high, size=...)
-    (FJSP) raise KeyError inside the harness.  The arguments are normalised here and handed to the unchanged
-    answer logic as (low, high, size)."""
+    (FJSP) raise KeyError inside the harness; its multinomial wrapper does not accept the keyword spelling
+    torch.multinomial(input=...) (distribution_utils.Gaussian_Mixture).  The arguments are normalised here and
+    handed to the unchanged answer logic."""
+
+    def multinomial(self, *args, **kw):
+        if "input" in kw:  # Gaussian_Mixture spells torch.multinomial(input=..., num_samples=..., replacement=...)
+            args = (kw.pop("input"),) + tuple(args)
+        return super().multinomial(*args, **kw)
 
     def randint(self, *args, **kw):
         a = list(args)
@@ -1055,8 +1061,9 @@ def wants_solvability(g, cfg, points):
 
 
 def degenerate(td):
-    """all locations of every row (depot included) coincide: only the all-low / all-high / alternating answer
-    patterns of a coordinate draw produce this; it is a probability-zero instance"""
+    """all locations of every row (depot included) coincide (or, where the sampler rescales by the spread of the
+    points, are all non-finite for that reason): only the constant / alternating answer patterns of a coordinate
+    draw produce this; it is a probability-zero instance"""
     if "locs" not in td.keys():
         return False
     pts = td["locs"]
@@ -1065,7 +1072,14 @@ def degenerate(td):
         pts = torch.cat((dep[:, None, :] if dep.dim() == 2 else dep, pts), dim=1)
     if pts.shape[1] < 2:
         return False
-    return bool(((pts - pts[:, :1]).abs().amax(dim=(1, 2)) == 0).all())
+    spread = (pts - pts[:, :1]).abs().amax(dim=(1, 2))
+    return bool(((spread == 0) | ~torch.isfinite(spread)).all())
+
+
+def _squash(m):
+    import re
+
+    return re.sub(r"\d+(\.\d+)?(e[+-]?\d+)?", "#", m)
 
 
 def fingerprint(td):
@@ -1128,7 +1142,10 @@ class Runner:
         out = []
         rows = range(bnum(self.B))
         cap = self.g.cap(self.cfg)
+        is_default = not any(c for _, _, c in points)
         for nm, env, exh, ck in self.envs():
+            if nm != self.gen and not (is_default or force):
+                continue  # secondary environments (sdvrp, spctsp, fjsp with waiting) see the default execution only
             out += solvability(env, nm, td, rows, exh and self.g.small(self.cfg), cap, ck, stats)
         return out
 
@@ -1186,7 +1203,7 @@ def run_config(p, item, max_dev, seed):
                 # pattern-made instance whose locations all coincide: recorded, not counted as a violation
                 p.add(degenerate_findings=len(found))
                 for o, m, _ in found:
-                    p.note(f"degenerate: {R.gen}: '{o}' when ALL locations of the instance coincide (only reachable through the all-low / all-high / alternating coordinate patterns, probability zero): {m[:110]}")
+                    p.note(f"degenerate: {R.gen}: '{o}' when ALL locations of an instance coincide (only reachable through the constant / alternating coordinate patterns, probability zero; not counted): {_squash(m)[:120]}")
                 continue
             if n_exec == 1:
                 default_obs = {o for o, _, _ in found}
